@@ -106,6 +106,19 @@ CHECKS["C04"] = dict(
          "(DESIGN.md C04 limits). Planner runs are sampled (environments, seeds, budgets).",
     technique="TLA+ spec of the comparator + TLC; state-graph replay; TLC trace validation of recorded cost reports",
     design="3/C04")
+CHECKS["C12"] = dict(
+    level="model_checking",
+    text="PDFTree.tla transcribes the sum tree of ompl::PDF (add with head growth, update, remove with the sibling case, row "
+         "shrink and head drop, clear, the sample descent); TLC checks RowsAreSums, RowLengths, index consistency and "
+         "SampleRefines (for every r in sixteenths the element reached is admissible under PDFContract) over all weight "
+         "vectors of <= 6 x {0..3} / 9 x {0,1}; every transition, every pair and random walks of the exported graph are "
+         "replayed on the real PDF (ASan/UBSan) comparing size, weights, element handles and sample(j/16) for all j; recorded "
+         "histories with exact and with non-representable weights (0.1, 1e17 ratios, updates to 0) are validated by TLC "
+         "against PDFContract (exact) and its fixed-point variant (survivor and zero-weight clauses without tolerance).",
+    note="Exact agreement for exactly representable weights; the fixed-point interval check is coarse (1 part in 2^26 of the "
+         "largest total); the order in which getElements() lists elements is left free by the contract.",
+    technique="TLA+ implementation-shaped spec + contract; TLC; state-graph replay; TLC trace validation",
+    design="3/C12")
 CHECKS["C13"] = dict(
     level="model_checking",
     text="TLC exhaustively checks a TLA+ transcription of Grid/GridN/GridB (two-step create/add protocol, remove, update, "
